@@ -16,6 +16,17 @@ LOG = []  # events (dicts)
 FAULT_LEN = {}  # path -> served length (truncation)
 _handle = [0]
 SCHED = [None]  # optional scheduler: object with .yield_point(kind, info)
+SHARED = set()  # product roots whose files are ONE file object per path, handed out (rewound) by every open and never really closed:
+#                 the semantics of fsspec's own memory:// filesystem, on which only the caller's locking keeps two readers apart
+_shared = {}
+DENY = set()  # product roots under which a MISSING object is reported as PermissionError (an object store that answers 403 for
+#               keys that do not exist when listing is not permitted) instead of FileNotFoundError
+
+
+def _missing(path):
+    if any(path.startswith(r + "/") for r in DENY):
+        return PermissionError(13, "access denied (object missing or not readable)", path)
+    return FileNotFoundError(path)
 
 
 def norm(path):
@@ -128,6 +139,16 @@ class TracedFile(io.BytesIO):
         pass
 
 
+class SharedTracedFile(TracedFile):
+    def reopen(self):
+        io.BytesIO.seek(self, 0)
+        _emit({"e": "fopen", "h": self._h, "f": base(self._path), "path": self._path})
+        return self
+
+    def close(self):
+        _emit({"e": "fclose", "h": self._h, "f": base(self._path)})
+
+
 class TraceFS(AbstractFileSystem):
     protocol = "vtrace"
     root_marker = "/"
@@ -160,7 +181,7 @@ class TraceFS(AbstractFileSystem):
             else:
                 ent = list(self._ls_dict(path).values())
                 if not ent:
-                    raise FileNotFoundError(path)
+                    raise _missing(path)
         return ent if detail else [e["name"] for e in ent]
 
     def info(self, path, **kwargs):
@@ -170,13 +191,13 @@ class TraceFS(AbstractFileSystem):
                 return {"name": path, "size": len(_content(path)), "type": "file"}
             if self._ls_dict(path) or path == "/":
                 return {"name": path, "size": 0, "type": "directory"}
-        raise FileNotFoundError(path)
+        raise _missing(path)
 
     def cat_file(self, path, start=None, end=None, **kwargs):
         path = norm(path)
         with _lock:
             if path not in STORE:
-                raise FileNotFoundError(path)
+                raise _missing(path)
             data = _content(path)
         _emit({"e": "cat", "f": base(path), "path": path, "got": len(data[start:end])})
         return data[start:end]
@@ -187,8 +208,15 @@ class TraceFS(AbstractFileSystem):
             raise NotImplementedError("vtrace is read-only")
         with _lock:
             if path not in STORE:
-                raise FileNotFoundError(path)
+                raise _missing(path)
             data = _content(path)
+            shared = any(path.startswith(r + "/") for r in SHARED)
+            f = _shared.get(path) if shared else None
+        if shared:
+            if f is None or f.getvalue() != data:
+                f = _shared[path] = SharedTracedFile(path, data)
+                return f
+            return f.reopen()
         return TracedFile(path, data)
 
     def pipe_file(self, path, value, **kwargs):
